@@ -14,14 +14,16 @@ from odfdo.table import Table
 from vlib.hk import done
 
 TN = "{urn:oasis:names:tc:opendocument:xmlns:table:1.0}"
+D = int(os.environ.get("VERIF_DEPTH", "0"))  # thorough tier: deeper bounds (per process)
+N = 3 + D   # the table is N x N
 
 
 def mk(r0, c0):
     t = Table("t")
-    for base, rep in ((10, r0), (20, 3 - r0)):
+    for base, rep in ((10, r0), (20, N - r0)):
         row = Row()
         row.append_cell(Cell(base + 1, repeated=c0 if c0 > 1 else None), clone=False)
-        row.append_cell(Cell(base + 2, repeated=(3 - c0) if (3 - c0) > 1 else None), clone=False)
+        row.append_cell(Cell(base + 2, repeated=(N - c0) if (N - c0) > 1 else None), clone=False)
         if rep > 1:
             row.repeated = rep
         t.append_row(row, clone=False)
@@ -57,7 +59,7 @@ C0 = int(os.environ.get("VERIF_C0", "1"))
 
 def span_area(x: int, y: int, z: int, t: int) -> bool:
     """
-    pre: 0 <= x <= z <= 2 and 0 <= y <= t <= 2 and (x < z or y < t)
+    pre: 0 <= x <= z <= N - 1 and 0 <= y <= t <= N - 1 and (x < z or y < t)
     post: _
     """
     r0, c0 = R0, C0
@@ -65,10 +67,10 @@ def span_area(x: int, y: int, z: int, t: int) -> bool:
     g0 = grid(tab)
     done_ = tab.set_span((x, y, z, t))
     g1 = grid(tab)
-    ok = done_ is True and tab.size == (3, 3) and len(g1) == 3
-    for yy in range(3):
-        ok = ok and len(g1[yy]) == 3
-        for xx in range(3):
+    ok = done_ is True and tab.size == (N, N) and len(g1) == N
+    for yy in range(N):
+        ok = ok and len(g1[yy]) == N
+        for xx in range(N):
             tag, val, cs, rs = g1[yy][xx]
             inside = x <= xx <= z and y <= yy <= t
             ok = ok and val == ref(r0, c0, xx, yy)  # merge=False never changes a value
